@@ -30,6 +30,10 @@ void upump_sim_mgr_set_budget(struct upump_mgr *mgr, uint64_t dispatches);
  * descriptor is not readable, and of timers firing late */
 void upump_sim_mgr_set_faults(struct upump_mgr *mgr, uint32_t spurious_per1024,
                               uint32_t late_per1024);
+/** restricts spurious dispatches to descriptors that two different simulated
+ * threads have read (another reader can then have drained it legally); a
+ * descriptor with a single reader never shows readable for nothing */
+void upump_sim_mgr_set_spurious_shared_only(struct upump_mgr *mgr, bool on);
 /** back-end view */
 bool upump_sim_active(struct upump *upump);
 bool upump_sim_ready(struct upump *upump);
